@@ -6,9 +6,8 @@ id (unit_keys / unit_factors), constrained only by the data invariant that the C
 tables: the base unit is declared and has factor 1.  The operators are inherited unchanged by all 41 quantity classes, so
 each is verified ONCE for a receiver of any subclass (generic receiver); calls on self are dispatched closed-world.
 
-Assumed (dependency contract, covered by the BOUNDED construction sweep of C17): `type(q)(x)` -- float.__new__ through
-Quantity.__new__/__init__ with unit None -- yields a new object of q's class with SI value x * factor(base unit) and the
-base unit as display unit.
+Construction is under contract too (third load() below): Quantity.__new__ / __init__ are verified, and every construction in
+the operators (`type(self)(x)`, `newclass(x, unit)`) applies those two contracts; the only assumed step is float.__new__.
 """
 import z3
 
@@ -85,7 +84,7 @@ def load(reg):
 
     SAME = "isref(other) and sametype(other, self)"
     NEW = ["sametype(result, self)", "result._unit == self._unit", "isfresh(result)"]
-    G = dict(generic_receiver=True, for_classes=["Quantity"], modifies=[], axiom_sets=())
+    G = dict(generic_receiver=True, for_classes=["Quantity"], modifies=[], axiom_sets=("seqstr",))
     reg.contract("Quantity._val", params={"si": "real"}, returns="ref:Quantity", raises=[],
                  ensures=NEW + ["result.g_si == si"], props=C17, **G)
     reg.contract("Quantity.__add__", params={"other": "obj"}, returns="ref:Quantity",
@@ -123,7 +122,7 @@ _load_q0 = load
 def load(reg):      # noqa: F811
     _load_q0(reg)
     C16, C17 = ["C16"], ["C17"]
-    G = dict(generic_receiver=True, for_classes=["Quantity"], modifies=[], axiom_sets=())
+    G = dict(generic_receiver=True, for_classes=["Quantity"], modifies=[], axiom_sets=("seqstr",))
     NEW = ["sametype(result, self)", "result._unit == self._unit", "isfresh(result)"]
     # scaling by a plain number (the first branch of * and /); products and quotients of two quantities go through the
     # class-object keyed conversion tables and stay with the table invariants + BOUNDED sweeps of C16
@@ -215,3 +214,89 @@ def load(reg):      # noqa: F811
     reg.specfun("mul_class", lambda eng, x, y: SV(Ty("type"), _z3.Select(MULV(S.typeof(x.t)), S.typeof(PyObj.rval(eng.to_obj(y))))))
     reg.specfun("div_class", lambda eng, x, y: SV(Ty("type"), _z3.Select(DIVV(S.typeof(x.t)), S.typeof(PyObj.rval(eng.to_obj(y))))))
     reg.specfun("class_of", lambda eng, x: SV(Ty("type"), S.typeof(x.t)))
+
+
+_load_q1 = load
+
+
+def load(reg):      # noqa: F811
+    """Construction under contract: Quantity.__new__ (value * factor of the unit, ValueError for an undeclared unit or a value that
+    is not exactly float / int when a unit is given) and Quantity.__init__ (display unit).  The only assumed step left is
+    float.__new__ itself: a new object of the requested class whose float value is the argument."""
+    _load_q1(reg)
+    import z3 as _z3
+    C17 = ["C17"]
+    KEYS = reg.ufun("unit_keys", _z3.IntSort(), _z3.SeqSort(_z3.IntSort()))
+    FACT = reg.ufun("unit_factors", _z3.IntSort(), _z3.ArraySort(_z3.IntSort(), _z3.RealSort()))
+    BASE = reg.ufun("base_unit", _z3.IntSort(), _z3.IntSort())
+    MT = MAP(STR, REAL)
+
+    def qids(eng):
+        return [eng.class_id(c) for c in eng.table.subclasses("Quantity") if c != "Quantity"]
+
+    def base_fact(eng, st, tid):
+        isq = _z3.Or(*[tid == i for i in qids(eng)])
+        st.assume(_z3.Implies(isq, _z3.And(_z3.Contains(KEYS(tid), _z3.Unit(BASE(tid))), _z3.Select(FACT(tid), BASE(tid)) == 1)))
+
+    def t_units(eng, tv, s):
+        if not eng.spec:
+            base_fact(eng, s, tv.t)
+        return eng.map_mk(MT, KEYS(tv.t), FACT(tv.t))
+    reg.specfun("typeattr__units", t_units)
+
+    # float.__new__(cls, x): the one assumed step
+    def super_new(eng, s, args, kwargs):
+        tv, val = args[0], eng.coerce(args[1], REAL)[0].t
+        r = _z3.simplify(eng.A0 + s.nalloc)
+        s.nalloc = s.nalloc + 1
+        s.assume(S.typeof(r) == tv.t)
+        eng.store_field(s, r, "Quantity", "g_si", SV(REAL, val))
+        return [(s, SV(REF("Quantity"), r))]
+    reg.specfun("super_new", super_new)
+    reg.trust("float.__new__(cls, x) returns a new object of class cls whose float value is x (builtin; assumed)")
+
+    reg.specfun("t_has_unit", lambda eng, tv, u: mk_bool(_z3.Contains(KEYS(tv.t), _z3.Unit(S.sid(eng.coerce(u, STR)[0].t)))))
+    reg.specfun("t_factor", lambda eng, tv, u: SV(REAL, _z3.Select(FACT(tv.t), S.sid(eng.coerce(u, STR)[0].t))))
+    reg.specfun("t_base_factor", lambda eng, tv: SV(REAL, _z3.Select(FACT(tv.t), BASE(tv.t))))
+    reg.specfun("t_baseunit", lambda eng, tv: SV(STR, S.sof(BASE(tv.t))))
+    EXACT = "(typeis_builtin(value, 'float') or typeis_builtin(value, 'int'))"
+    UNIT = "strval(unit)"
+    reg.contract("Quantity.__new__", params={"cls": "type", "value": "obj", "unit": "obj"}, returns="ref:Quantity",
+                 requires=["isnone(unit) or isstr(unit)", "not isref(value) and isnum(value) and isfin(value)"],
+                 raises=[("ValueError", "not isnone(unit) and (not t_has_unit(cls, %s) or not %s)" % (UNIT, EXACT))],
+                 ensures=["isfresh(result)", "class_of(result) == cls",
+                          # the SI value is the value times the factor of the unit (of the base unit when none is given)
+                          "implies(isnone(unit), result.g_si == val(num(value)) * t_base_factor(cls))",
+                          "implies(not isnone(unit), result.g_si == val(num(value)) * t_factor(cls, %s))" % UNIT],
+                 modifies=[], for_classes=["Quantity"], props=C17, axiom_sets=("seqstr",))
+    reg.contract("Quantity.__init__", params={"value": "obj", "unit": "obj"},
+                 requires=["isnone(unit) or isstr(unit)"], raises=[],
+                 ensures=["implies(isnone(unit), self._unit == t_baseunit(class_of(self)))",
+                          "implies(not isnone(unit), self._unit == %s)" % UNIT],
+                 modifies=["self._unit"], generic_receiver=True, for_classes=["Quantity"], props=C17, axiom_sets=("seqstr",))
+
+    # construction = __new__ then __init__, both by contract (replaces the assumed construction hooks above)
+    def construct(eng, s, tv, value, unit):
+        from pyvc import calls
+        from pyvc.engine import Raise
+        fnew, finit = eng.table.get("Quantity.__new__"), eng.table.get("Quantity.__init__")
+        base_fact(eng, s, tv.t)         # data invariant of the class being instantiated (UInv): base unit declared, factor 1
+        outs = []
+        for s1, r in calls.call_function(eng, fnew, None, [tv, value, unit], {}, s):
+            if isinstance(r, Raise):
+                outs.append((s1, r))
+                continue
+            for s2, r2 in calls.call_function(eng, finit, r, [value, unit], {}, s1):
+                outs.append((s2, r2 if isinstance(r2, Raise) else r))
+        return outs
+    from pyvc.engine import mk_none
+    reg.specfun("type_call_ref", lambda eng, s, x, v: construct(eng, s, SV(Ty("type"), S.typeof(x.t)), v, mk_none())
+                if eng.table.is_subclass(x.ty.cls, "Quantity") else (_ for _ in ()).throw(
+                    __import__("pyvc.engine", fromlist=["Unsupported"]).Unsupported("type(x)(v) for %r" % (x.ty,))))
+
+    def type_value_call(eng, s, tv, args, kwargs):
+        from pyvc.engine import Unsupported
+        if not (1 <= len(args) <= 2) or kwargs:
+            raise Unsupported("construction through a class object with %d arguments" % len(args))
+        return construct(eng, s, tv, args[0], args[1] if len(args) > 1 else mk_none())
+    reg.specfun("type_value_call", type_value_call)
